@@ -98,6 +98,50 @@ def reload_rule(chk, prog):
         chk.error("RELOAD: reset_coefficients has no normal exit")
 
 
+def keep_date(chk, prog):
+    """KEEP-DATE: when magnetic_field is called without a date the reload must be the identity on the object's date state.  reset_date stores a float
+    argument unchanged in date_dec but recomputes date_dec from a calendar date (year + day/365 of the *rounded* day), so only re-submitting
+    self.date_dec keeps the decimal year the previous answer was computed for."""
+    from sa.facts import PHI
+    f = prog.func(WMM + "::WMM.magnetic_field")
+    seen = []
+
+    def on_call(fa, node, st):
+        if ast.unparse(node.func) == "self.reset_coefficients" and node.args:
+            seen.append((node, fa.vn(node.args[0], st)))
+    Facts(f, prog, callbacks={"call": on_call}).analyse()
+    if not seen:
+        chk.error("KEEP-DATE: magnetic_field no longer reloads through self.reset_coefficients(<date>) (anchor changed)")
+        return
+    for node, vn in seen:
+        head = "ite(cmp(P:date;Is c:None),"
+        if vn.startswith(head):
+            depth, kept = 0, ""
+            for ch in vn[len(head):]:
+                if ch in "([":
+                    depth += 1
+                elif ch in ")]":
+                    depth -= 1
+                elif ch == "," and depth == 0:
+                    break
+                kept += ch
+            cands = {kept}
+        elif vn in PHI:
+            cands = set(PHI[vn]) - {"P:date"}
+        else:
+            cands = {vn} - {"P:date"}
+        site = WMM + "::WMM.magnetic_field::" + stmt_text(node)
+        if cands == {"S:date_dec"}:
+            chk.record("KEEP-DATE", site, "with date=None the stored decimal year is re-submitted unchanged")
+        elif any(c.startswith("S:") or "S:date" in c for c in cands):
+            why = "with date=None the reload is fed `%s` instead of self.date_dec: reset_date recomputes the decimal year from it (year + day/365 of the rounded day), so a call " \
+                  "that should keep the current date silently moves it (and, across a rounding or epoch boundary, changes dt or the model file)" % ", ".join(sorted(cands))
+            chk.record("KEEP-DATE", site, "date=None keeps the date state", verdict="VIOLATION", detail=why)
+            chk.finding("KEEP-DATE", WMM, "WMM.magnetic_field", "date=None reload argument", why, line=node.lineno)
+        else:
+            chk.error("KEEP-DATE: cannot tell what magnetic_field re-submits when date is None (%s)" % vn[:80])
+
+
 def truthiness(chk, prog):
     mod = prog.module(WMM)
     cls = mod.classes["WMM"]
@@ -260,6 +304,7 @@ def canaries(chk, prog):
 def run(chk, prog, tier):
     typestate(chk, prog)
     reload_rule(chk, prog)
+    keep_date(chk, prog)
     truthiness(chk, prog)
     ctor_route(chk, prog)
     elements(chk, prog)
